@@ -350,10 +350,14 @@ func (c *Check) normalizeShape() {
 	pos := p.relFile(f.Pos())
 	recv, base := f.Params[0], f.Params[1]
 	var quo *ssa.BinOp
-	for _, b := range f.Blocks {
+	for _, b := range helperBlocks(f, 2) {
 		for _, ins := range b.Instrs {
 			if q, ok := ins.(*ssa.BinOp); ok && q.Op == token.QUO {
-				quo = q
+				if _, isFloat := q.Type().Underlying().(*types.Basic); isFloat && (quo == nil || b.Parent() == f) {
+					if bt := q.Type().Underlying().(*types.Basic); bt.Info()&types.IsFloat != 0 {
+						quo = q
+					}
+				}
 			}
 		}
 	}
@@ -367,7 +371,8 @@ func (c *Check) normalizeShape() {
 		c.undecided("C07-R3", "ratio", p.relFile(quo.Pos()), "the normalisation ratio is not a quotient of two per-column sums")
 		return
 	}
-	numFrom, denFrom := accumulatesFrom(f, numArr), accumulatesFrom(f, denArr)
+	// the ratios may be computed by a helper that receives the two lists of sums
+	numFrom, denFrom := accumulatesFrom(f, argOfParam(p, numArr, 0)), accumulatesFrom(f, argOfParam(p, denArr, 0))
 	switch {
 	case numIdx != denIdx:
 		c.bad("C07-R3", "ratio", p.relFile(quo.Pos()), "Normalize divides the sum of one column by the sum of a different column")
